@@ -155,6 +155,67 @@ def main(tier):
                                     fail(kind='array-value', value=repr(combo), read_back=repr(got), row=r0 + 1, row_end=r1 + 1, start=fs + 1, end=fe + 1, delim=delim_name)
                                 elif not rest_ok:
                                     fail(kind='other-fields-disturbed', value=repr(combo), row=r0 + 1, row_end=r1 + 1, start=fs + 1, end=fe + 1, delim=delim_name)
+    # ---- histories: SEVERAL transfers through ONE InputFileGenerator (the usual way a wrapper fills a template) ----
+    import numpy as np
+    nrow, ncol = 4, 4
+    for delim_name, delim in (('space', ' '), ('comma', ', ')):
+        base = [[11.5 + 10 * r + c for c in range(ncol)] for r in range(nrow)]
+        lines = ['header line', 'ANCHOR'] + [delim.join('%r' % v for v in row) for row in base] + ['trailer 99']
+        with open(tfile, 'w') as f:
+            f.write('\n'.join(lines) + '\n')
+        A = lambda *v: np.array(v, dtype=float)
+        sequences = [
+            [('arr', 1, 1, 3, A(1.5, -2.25, 1.0 / 3.0)), ('arr', 2, 1, 3, A(7.0, 8.5, -9.75))],                 # equal lengths
+            [('arr', 1, 1, 4, A(1.5, -2.25, 3.0, 4.0)), ('arr', 3, 2, 3, A(0.1, -0.2))],                         # long then short
+            [('arr', 1, 2, 3, A(0.5, 0.25)), ('arr', 2, 1, 4, A(10.125, 20.0, 3.141592653589793, -0.001))],      # short then long
+            [('var', 1, 1, 2.5e-7), ('arr', 2, 2, 4, A(1.0, 2.0, 3.0)), ('var', 4, 4, -1e300)],
+            [('arr', 1, 1, 2, A(5.0, 6.0)), ('2d', 2, 3, 1, 3, np.array([[1.25, 2.5, 3.75], [-4.0, -5.0, -6.0]]))],   # array then 2-d array
+            [('2d', 1, 2, 2, 4, np.array([[1.25, 2.5, 3.75], [-4.0, -5.0, -6.0]])), ('arr', 4, 1, 4, A(9.0, 8.0, 7.0, 6.0))],
+            [('arr', 1, 1, 2, A(5.0, 6.0)), ('arr', 1, 3, 4, A(7.0, 8.0)), ('arr', 2, 1, 2, A(-5.0, -6.0)), ('arr', 2, 3, 4, A(-7.0, -8.0))],
+        ]
+        for si, seq in enumerate(sequences):
+            for two_generates in (False, True):
+                ev += 1
+                desc = dict(history='%d transfers through one generator%s' % (len(seq), ', generate() after the first and after the last' if two_generates else ''),
+                            delim=delim_name, transfers=[[t[0]] + [x if not hasattr(x, 'tolist') else x.tolist() for x in t[1:]] for t in seq])
+                try:
+                    g = InputFileGenerator()
+                    g.set_template_file(tfile)
+                    g.set_generated_file(gfile)
+                    if delim_name == 'comma':
+                        g.set_delimiters(', ')
+                    g.mark_anchor('ANCHOR')
+                    expect = [row[:] for row in base]
+                    for k, t in enumerate(seq):
+                        if t[0] == 'var':
+                            g.transfer_var(t[3], t[1], t[2])
+                            expect[t[1] - 1][t[2] - 1] = t[3]
+                        elif t[0] == 'arr':
+                            g.transfer_array(t[4], t[1], t[2], t[3])
+                            for j, v in enumerate(t[4]):
+                                expect[t[1] - 1][t[2] - 1 + j] = float(v)
+                        else:
+                            g.transfer_2Darray(t[5], t[1], t[2], t[3], t[4])
+                            for i in range(t[2] - t[1] + 1):
+                                for j in range(t[4] - t[3] + 1):
+                                    expect[t[1] - 1 + i][t[3] - 1 + j] = float(t[5][i, j])
+                        if two_generates and k == 0:
+                            g.generate()
+                    g.generate()
+                    p = FileParser()
+                    p.set_file(gfile)
+                    if delim_name == 'comma':
+                        p.set_delimiters(', ')
+                    p.mark_anchor('ANCHOR')
+                    got = [[p.transfer_var(r + 1, c + 1) for c in range(ncol)] for r in range(nrow)]
+                except Exception as e:     # noqa
+                    fail(kind='history-exception', error='%s: %s' % (type(e).__name__, e), **desc)
+                    continue
+                bad = [(r + 1, c + 1, repr(expect[r][c]), repr(got[r][c])) for r in range(nrow) for c in range(ncol) if not same(expect[r][c], got[r][c])]
+                if bad:
+                    fail(kind='history: fields read back differ from what the sequence of transfers wrote', wrong_fields=bad[:6], **desc)
+                else:
+                    nontrivial.add(('history', delim_name, si, two_generates))
     import shutil
     shutil.rmtree(tmp, ignore_errors=True)
     print(json.dumps({'evaluations': ev, 'distinct_nontrivial': len(nontrivial), 'n_failures': len(fails),
